@@ -98,6 +98,9 @@ func makeDebugRef(f *Function, e ast.Expr, v Value, isAddr bool) *DebugRef {
 	if v == nil || e == nil {
 		panic("nil")
 	}
+	if _, ok := v.(*Builtin); ok {
+		return nil // Builtins can only appear in CallCommon.Value (e.g. unsafe.Slice is not an Ident)
+	}
 	var obj types.Object
 	e = unparen(e)
 	if id, ok := e.(*ast.Ident); ok {
